@@ -297,6 +297,13 @@ def build(cfg) -> Built:
         # both restrictions of every factor appear in every interior-facet configuration (asymmetric weights)
         other = "-" if sf == "+" else "+"
         fac = fac + 2.0 * factor_expr(fname, B, mesh, cell, gdim, tdim, itype, other, f, g, c0, cv, cT, x, cdeg, geom)
+    if tmesh is not mesh:
+        # geometric quantities of BOTH meshes in one kernel (their static geometry tables are shared per cell type); the quotient is 1
+        Rr = (lambda e: e(sf)) if itype == "dS" else (lambda e: e)
+        if cell in SIMPLEX and cdeg == 1:
+            fac = fac * (Rr(ufl.CellVolume(tmesh)) / Rr(ufl.CellVolume(mesh)))
+        else:
+            fac = fac * (Rr(ufl.CellDiameter(tmesh)) / Rr(ufl.CellDiameter(mesh)))
     wrap = cfg.get("wrap", "plain")
     if wrap == "plain":
         integrand = fac * core
